@@ -649,7 +649,7 @@ class IPWiredNetworkInterface(WiredNetworkInterface, Layer3Interface, ABC):
         super().enable()
         if hasattr(self._connected_node, "default_gateway_hello"):
             self._connected_node.default_gateway_hello()
-        return True
+        return self.enabled
 
     @abstractmethod
     def receive_frame(self, frame: Frame) -> bool:
